@@ -50,9 +50,15 @@ vLong(n) == << <<120, n>> >>
 MCOptNames == {nA, nA1}
 MCSecNames == {nA, nE}
 MCValues == {vE, vXY, vQ}
-MCGaps == {"none", "com"}
-MCBlanks == {"none", "sp"}
-MCTerms == {"nl", "com"}
+D(g, g2, b1, b2, b3, term) == [g |-> g, g2 |-> g2, b1 |-> b1, b2 |-> b2, b3 |-> b3, term |-> term]
+DTight  == D("none", "none", "none", "none", "none", "nl")
+DSpaced == D("sp", "nl", "sp", "sp", "sp", "nl")
+DCom    == D("com", "spcom", "tab", "none", "sp", "com")
+DBlank  == D("blank", "blank", "mix", "sp2", "mix", "eof")
+DCrlf   == D("crlf", "none", "none", "tab", "sp", "nl")
+MCDecos == {DTight, DSpaced, DCom}
+MCDecosT == {DTight, DSpaced, DCom, DBlank}
+MCConfigsQ == ShippedConfigs \cup {Cfg(FmtEncSame, Null), Cfg(FmtEncNest, Null), Cfg(FmtOptEnd, Null)}
 
 Bound == TRUE
 View == <<cfg, text, stack, nn>>                   \* obs is an observation, not state
